@@ -205,15 +205,49 @@ Theorem C04_order_feature_source_refuted : exists a, feature_lt true a a = Ok tr
 Proof. exact feature_source_refuted. Qed.
 Print Assumptions C04_order_feature_source_refuted.
 
-(* CDSCollection.__lt__ is NOT a strict weak order on well-formed collection locations: the whole
-   record and a span over the origin are each less than the other *)
-Theorem C04_order_collection_refuted : exists N a b,
-  is_spanb N a = true /\ is_spanb N b = true /\
-  collection_lt a b = Ok true /\ collection_lt b a = Ok true.
-Proof. exact collection_order_refuted. Qed.
-Print Assumptions C04_order_collection_refuted.
+(* CDSCollection.__lt__ (with the symmetric containment shortcut, repair of finding F53
+   collection_lt_not_asymmetric) is irreflexive and asymmetric on ALL locations: a < b and b < a
+   never both hold, so sorted()/bisect can no longer depend on which of the two is asked.  Before
+   the repair the whole record and a span over the origin were each less than the other. *)
+Theorem C04_order_collection_asym : forall a b,
+  ~ clt a a /\ (clt a b -> ~ clt b a).
+Proof. intros a b. split; [apply collection_lt_irrefl|apply collection_lt_asym]. Qed.
+Print Assumptions C04_order_collection_asym.
+
+(* on the locations a collection can have on a record of length N (coll_loc: one part inside the
+   record, or the forward span [s,N)+[0,e), 0 < e <= s < N) it is the lexicographic order of a rank
+   (whole record first, then (start, -length), the start of a span being s - N) ... *)
+Theorem C04_order_collection_rank : forall N a b, coll_loc N a -> coll_loc N b ->
+  collection_lt a b = Ok (pair_lt (rank N a) (rank N b)).
+Proof. exact collection_lt_rank. Qed.
+Print Assumptions C04_order_collection_rank.
+
+(* ... hence a strict weak order: irreflexive, asymmetric, transitive, incomparability transitive *)
+Theorem C04_order_collection : forall N a b c, coll_loc N a -> coll_loc N b -> coll_loc N c ->
+  ~ clt a a /\ (clt a b -> ~ clt b a) /\ (clt a b -> clt b c -> clt a c) /\
+  (~ clt a b -> ~ clt b a -> ~ clt b c -> ~ clt c b -> ~ clt a c /\ ~ clt c a).
+Proof. exact collection_order. Qed.
+Print Assumptions C04_order_collection.
+
+(* a collection covering the whole record is less than every other collection location *)
+Theorem C04_order_collection_whole_first : forall N st l, 0 < N -> coll_loc N l ->
+  (forall st', l <> [mkPart 0 N st']) -> clt [mkPart 0 N st] l.
+Proof. exact collection_whole_first. Qed.
+Print Assumptions C04_order_collection_whole_first.
+
+(* the former witness of the finding: the whole record comes first, one way only *)
+Theorem C04_order_collection_witness :
+  collection_lt [mkPart 0 10 1] [mkPart 7 10 1; mkPart 0 2 1] = Ok true /\
+  collection_lt [mkPart 7 10 1; mkPart 0 2 1] [mkPart 0 10 1] = Ok false.
+Proof. exact collection_order_witness. Qed.
+Print Assumptions C04_order_collection_witness.
 
 (* ---- soundness of the decidable specifications evaluated on the implementation's output ---- *)
+(* specification 113 (the implementation's answers to a < b and b < a): never both *)
+Theorem C04_spec_order_sound : forall x y, ok_asym x y = true -> ~ (x = true /\ y = true).
+Proof. intros x y H [-> ->]. discriminate. Qed.
+Print Assumptions C04_spec_order_sound.
+
 Theorem C04_spec_overlap_sound : forall a b out, ok_overlap a b out = true ->
   (out = true <-> exists x, base_of a x /\ base_of b x).
 Proof. exact ok_overlap_sound. Qed.
@@ -323,3 +357,26 @@ Proof. unfold wfp. cbn. repeat split; try lia; reflexivity. Qed.
 Example C04_ex_offset_line_multi :
   offset_location [mkPart 5 10 1; mkPart 12 14 1] (-3) None = Ok [mkPart 2 7 1; mkPart 9 11 1].
 Proof. reflexivity. Qed.
+
+(* the repaired first branch of Record.extend_location (finding F09b extend_lower_lost): the former
+   witnesses now give every base within the distance, and the specification accepts the results *)
+Example C04_ex_extend_lower_kept :
+  extend_location [mkPart 0 1 2; mkPart 3 4 2] 2 4 true = Ok [mkPart 0 4 2] /\
+  extend_location [mkPart 2 3 1; mkPart 8 10 1; mkPart 17 18 1] 6 20 true
+    = Ok [mkPart 16 20 1; mkPart 0 4 1; mkPart 8 10 1] /\
+  extend_location [mkPart 17 18 (-1); mkPart 8 10 (-1); mkPart 2 3 (-1)] 6 20 true
+    = Ok [mkPart 8 10 (-1); mkPart 0 4 (-1); mkPart 16 20 (-1)] /\
+  check_extend [mkPart 0 1 2; mkPart 3 4 2] 2 4 true (Ok [mkPart 0 4 2]) = 0 /\
+  check_extend [mkPart 2 3 1; mkPart 8 10 1; mkPart 17 18 1] 6 20 true
+    (Ok [mkPart 16 20 1; mkPart 0 4 1; mkPart 8 10 1]) = 0 /\
+  check_extend [mkPart 2 3 1; mkPart 8 10 1; mkPart 17 18 1] 6 20 true
+    (Ok [mkPart 16 20 1; mkPart 0 3 1; mkPart 8 10 1]) = 6.
+Proof. repeat split; reflexivity. Qed.
+
+Example C04_ex_order_collection :
+  coll_loc 10 [mkPart 0 10 1] /\ coll_loc 10 [mkPart 7 10 1; mkPart 0 2 1] /\
+  rank 10 [mkPart 0 10 1] = (-10, -10) /\ rank 10 [mkPart 7 10 1; mkPart 0 2 1] = (-3, -5).
+Proof.
+  split; [left; eexists; split; [reflexivity|cbn; lia]|].
+  split; [right; exists 7, 2; split; [reflexivity|lia]|]. split; reflexivity.
+Qed.
